@@ -932,6 +932,98 @@ def check_validator(ctx, db):
     ctx.check(ok, 'R-SHAPE', 'checksum32/sum-of-bytes', cs.loc(), 'CHECKSUM32 is the running sum of all `count` bytes modulo 2^32, continued from the previous value', 'checksum32 body: %s' % t[:200])
 
 
+def check_ctrapezoid_tables(ctx, db):
+    """Compact-trapezoid types 0..15: the writer's classification table (is_trapezoid: type from the two slant offsets
+    delta_a, delta_b relative to the height resp. width) against the reader's construction table (read_oas: which
+    corners of the w x h box are shifted). Vertex correspondence used (from the writer's own formulas): horizontal
+    types - delta_a = x(top-left) - x(bottom-left), delta_b = x(top-right) - x(bottom-right); vertical types -
+    delta_a = y(bottom-left) - y(bottom-right), delta_b = y(top-left) - y(top-right)."""
+    w = db.fn('gdstk::is_trapezoid')
+    r = db.fn('gdstk::read_oas')
+    ctx.touch(w)
+    split = next((i for i in w.walk() if i.k == 'IfStmt' and norm(i.child('cond').text()) == '(type == 26)' and i.child('else') is not None), None)
+    if split is None:
+        raise AnalysisBroken('is_trapezoid: horizontal/vertical split `type == 26` not found')
+    defs = {}
+    for br, lab in ((split.child('then'), 'H'), (split.child('else'), 'V')):
+        for x in br.walk():
+            if is_assign(x) and norm(x.child('lhs').text()) in ('delta_a', 'delta_b'):
+                defs[(lab, norm(x.child('lhs').text()))] = norm(x.child('rhs').text())
+    want_defs = {('H', 'delta_a'): '(p.x - r.x)', ('H', 'delta_b'): '(q.x - s.x)', ('V', 'delta_a'): '(p.y - r.y)', ('V', 'delta_b'): '(q.y - s.y)'}
+    ctx.check(defs == want_defs, 'R-TABLE', 'is_trapezoid/slant-offsets', split.loc(), 'slant offsets are p - r and q - s along the parallel sides\' direction (the correspondence the table comparison relies on)', 'slant offset definitions: %s' % defs)
+
+    def rel(t, unit):
+        t = t.replace(' ', '')
+        if t == '0':
+            return 0
+        if t == unit:
+            return 1
+        if t in ('(-%s)' % unit, '-%s' % unit):
+            return -1
+        return None
+
+    def table(br, unit):
+        out = {}
+        for oi in [i for i in br.c if i is not None and i.k == 'IfStmt']:
+            cur = oi
+            while cur is not None and cur.k == 'IfStmt':
+                m = re.fullmatch(r'\(delta_a == (.+)\)', norm(cur.child('cond').text()))
+                if m and rel(m.group(1), unit) is not None:
+                    a = rel(m.group(1), unit)
+                    inner = cur.child('then')
+                    ci = next((i for i in (inner.c if inner.k == 'CompoundStmt' else [inner]) if i is not None and i.k == 'IfStmt'), None)
+                    while ci is not None and ci.k == 'IfStmt':
+                        m2 = re.fullmatch(r'\(delta_b == (.+)\)', norm(ci.child('cond').text()))
+                        st = next((x for x in ci.child('then').walk() if is_assign(x) and norm(x.child('lhs').text()) == 'type'), None)
+                        if m2 and rel(m2.group(1), unit) is not None and st is not None:
+                            rv = _strip_casts(st.child('rhs'))
+                            out[(a, rel(m2.group(1), unit))] = rv.cv if rv.cv is not None else norm(rv.text())
+                        ci = ci.child('else')
+                cur = cur.child('else')
+        return out
+    wt = {'H': table(split.child('then'), 'size.y'), 'V': table(split.child('else'), 'size.x')}
+    # reader: shifts of the box corners per type
+    sw = next((s_ for s_ in r.walk() if s_.k == 'SwitchStmt' and norm(s_.child('cond').text()) == 'modal_ctrapezoid_type'), None)
+    if sw is None:
+        raise AnalysisBroken('read_oas: CTRAPEZOID type switch not found')
+    rt = {}
+    for labels, stmts, top in tables.switch_arms(sw):
+        sh = {}
+        for st in stmts:
+            for x in st.walk():
+                if x.k == 'CompoundAssignOperator' and x.op in ('+=', '-='):
+                    m = re.fullmatch(r'v\[(\d)\]\.([xy])', norm(x.child('lhs').text()))
+                    d = {'modal_geom_dim.y': 'h', 'modal_geom_dim.x': 'w'}.get(norm(x.child('rhs').text()))
+                    if m and d:
+                        sh[(int(m.group(1)), m.group(2))] = (1 if x.op == '+=' else -1, d)
+        for l in labels:
+            rt[l] = sh
+    n = 0
+    bad = []
+    for t in range(16):
+        sh = rt.get(t)
+        if sh is None:
+            bad.append('type %d has no reader arm' % t)
+            continue
+        horiz = t < 8
+        axis, unit = ('x', 'h') if horiz else ('y', 'w')
+        if any(k[1] != axis or v[1] != unit for k, v in sh.items()):
+            bad.append('type %d: reader shifts %s' % (t, sh))
+            continue
+        g = lambda k: sh.get((k, axis), (0, unit))[0]
+        if horiz:       # v0 BL, v1 BR, v2 TR, v3 TL
+            da, db_ = g(3) - g(0), g(2) - g(1)
+        else:
+            da, db_ = g(0) - g(1), g(3) - g(2)
+        n += 1
+        got = wt['H' if horiz else 'V'].get((da, db_))
+        if got != t:
+            bad.append('a quadrilateral the reader builds for type %d (slant offsets %+d, %+d x %s) is classified by the writer as type %s' % (t, da, db_, 'height' if horiz else 'width', got))
+    ctx.check(not bad and n == 16, 'R-TABLE', 'roundtrip/CTRAPEZOID-type-table', split.loc(), 'for types 0..15 the writer\'s (delta_a, delta_b) -> type table is the inverse of the reader\'s type -> corner-shift table', '; '.join(bad[:3]))
+    sq = {k: v for k, v in list(wt['H'].items()) + list(wt['V'].items()) if k == (0, 0)}
+    ctx.check(all('25' in str(v) and '24' in str(v) for v in sq.values()) and len(wt['H']) == 9 and len(wt['V']) == 9, 'R-TABLE', 'is_trapezoid/rectangles', split.loc(), 'both 3 x 3 tables are complete; zero slant on both sides is the rectangle (24) or square (25)')
+
+
 def check_tagunion(ctx, db):
     n = 0
     w = db.fn(WRITER_ROOT)
@@ -974,11 +1066,12 @@ def run(ctx):
     check_cblock(ctx, db)
     check_validator(ctx, db)
     check_detection(ctx, db)
+    check_ctrapezoid_tables(ctx, db)
     check_tagunion(ctx, db)
 
 
 MANIFEST = dict(
-    text='Decides the structural necessary conditions of the OASIS save/load round trip for every writer option: each record instance any writer block can emit (all valuations of the option/detection branches) is consumed field by field by the reader arm of the same record and info byte; PROPERTY count nibble/explicit count pairing for counts 0..40 and the value type table PropertyType<->OasisDataType; repetition type codes with paired count biases and scaling, and unsigned sinks proven non-negative; PATH extension-scheme nibbles vs the extensions written and the end type, half-width sink; PLACEMENT angle code inverse for m=-9..9; integer sinks fed only by llround(v*scaling); all file bytes go through the signature accumulator except the signature itself (call graph from write_oas); CBLOCK cursor armed/cleared in pairs with the header written unbuffered, raw deflate on both sides; oas_validate signs exactly the bytes that pass through the writer\'s accumulator (file length - 4) with the same seeds, scheme codes and byte order; Reference union members accessed under their tag. Equality of re-loaded coordinates, circle tolerance, deflate round trip, the signature value and idempotence over cycles are not decided.',
+    text='Decides the structural necessary conditions of the OASIS save/load round trip for every writer option: each record instance any writer block can emit (all valuations of the option/detection branches) is consumed field by field by the reader arm of the same record and info byte; PROPERTY count nibble/explicit count pairing for counts 0..40 and the value type table PropertyType<->OasisDataType; repetition type codes with paired count biases and scaling, and unsigned sinks proven non-negative; PATH extension-scheme nibbles vs the extensions written and the end type, half-width sink; PLACEMENT angle code inverse for m=-9..9; integer sinks fed only by llround(v*scaling); all file bytes go through the signature accumulator except the signature itself (call graph from write_oas); CBLOCK cursor armed/cleared in pairs with the header written unbuffered, raw deflate on both sides; oas_validate signs exactly the bytes that pass through the writer\'s accumulator (file length - 4) with the same seeds, scheme codes and byte order; for compact-trapezoid types 0..15 the writer\'s slant-offset -> type table is the inverse of the reader\'s type -> corner-shift table; Reference union members accessed under their tag. Equality of re-loaded coordinates, circle tolerance, deflate round trip, the signature value and idempotence over cycles are not decided.',
     note='Trusted: clang front end, gx, sa/oasfields.py abstract writer interpretation (unclassifiable conditions raise analysis-broken). Primitive codecs are C19\'s obligations, conformance of the reader arms to SEMI P39 is C04\'s.',
     technique='abstract interpretation of writer blocks under predicate atoms replayed against reader decision trees; exhaustive evaluation of pure integer code over small domains; code-table pairing with linear bias comparison; call-graph effect analysis (who may write the file); typestate on the CBLOCK cursor; tagged-union discipline',
     design='§4 C02')
